@@ -93,7 +93,7 @@ type termScript struct {
 
 func respFor(cmdID int) int {
 	switch cmdID {
-	case 0x8104:
+	case 0x8104, 0x8106:
 		return 0x0104
 	case 0x8801:
 		return 0x0805
@@ -199,7 +199,9 @@ func (t *term) serve(r *rand.Rand, sc termScript, done <-chan struct{}) {
 var c12Cmds = []consts.JT808CommandType{consts.P8103SetTerminalParams, consts.P8104QueryTerminalParams, consts.P8801CameraShootImmediateCommand,
 	consts.P9101RealTimeAudioVideoRequest, consts.P9102AudioVideoControl, consts.P9205QueryResourceList, consts.P9206FileUploadInstructions,
 	// command types the connection has no handler for: written and answered like any other
-	consts.P8300TextInfoDistribution, consts.P8105TerminalControl}
+	consts.P8300TextInfoDistribution, consts.P8105TerminalControl,
+	// a second command that is answered by 0x0104
+	consts.P8106QuerySpecifyParam}
 
 func init() {
 	// live-c12 <terminals> <commands per caller> <trace>
@@ -248,7 +250,11 @@ func init() {
 							l.sendActive(t.idx, k, key+"9", cmd, randBytes(rr, rr.Intn(20)), tmo) // offline key: not-exist at once
 							continue
 						}
-						l.sendActive(t.idx, k, key, cmd, randBytes(rr, rr.Intn(40)), tmo)
+						body := randBytes(rr, rr.Intn(40))
+						if rr.Intn(6) == 0 { // runs of the bytes that are escaped on the wire
+							body = append(body, 0x7e, 0x7e, 0x7d, 0x7d, 0x7e, 0x7d, 0x02, 0x7d, 0x01)
+						}
+						l.sendActive(t.idx, k, key, cmd, body, tmo)
 						if rr.Intn(3) == 0 {
 							time.Sleep(time.Duration(rr.Intn(20)) * time.Millisecond)
 						}
@@ -401,6 +407,38 @@ func init() {
 				res := <-resCh
 				l.rec.log(t.idx, "D", "assert", "ok", okAddr && res.Kind == "resp", "what", "ReusedRequestSentUnderAnotherTerminalsNumber", "kind", res.Kind)
 			}
+		}
+		// (a6) two commands outstanding whose platform serials are 64 (and 128, 256) apart - 63 heartbeats are answered in between:
+		// both callers get their own response
+		for _, gap := range []int{64, 128, 256} {
+			t := terms[0]
+			key := string(asciiDigits(t.phone))
+			resA, resB := make(chan cmdResult, 1), make(chan cmdResult, 1)
+			ka, kb := int(kid.Add(1)), int(kid.Add(1))
+			go func() {
+				resA <- l.sendActiveAM(t.idx, ka, service.NewActiveMessage(key, consts.P8104QueryTerminalParams, nil, 4*time.Second))
+			}()
+			serA, okA := nextCmd(t, 0x8104, 3*time.Second)
+			base := t.nrecv.Load()
+			for i := 0; i < gap-1; i++ {
+				t.send(t.frame(0x0002, nil))
+			}
+			t.waitRecv(base+int64(gap-1), 5*time.Second)
+			for len(t.recvCh) > 0 {
+				<-t.recvCh
+			}
+			go func() {
+				resB <- l.sendActiveAM(t.idx, kb, service.NewActiveMessage(key, consts.P8104QueryTerminalParams, nil, 4*time.Second))
+			}()
+			serB, okB := nextCmd(t, 0x8104, 3*time.Second)
+			if okB {
+				t.send(t.frame(0x0104, respBody(0x0104, serB, 0x8104)))
+			}
+			if okA {
+				t.send(t.frame(0x0104, respBody(0x0104, serA, 0x8104)))
+			}
+			ra, rb := <-resA, <-resB
+			l.rec.log(t.idx, "D", "assert", "ok", ra.Kind == "resp" && rb.Kind == "resp" && (serB-serA+65536)%65536 == gap, "what", "OutstandingCommandsSerialsApart", "gap", (serB-serA+65536)%65536, "kinds", ra.Kind+","+rb.Kind)
 		}
 		// (a3) a caller without a time-out whose terminal takes longer than any default time-out (3.4 s): it gets the response
 		{
@@ -850,8 +888,23 @@ func init() {
 	// live-c13key <trace>: the server runs with WithKeyFunc and one terminal's key is the empty string (a legal key). After each
 	// terminal has gone (EOF or reset) callers of its key - without a time-out, and with one - are told at once that it is not there
 	cmds["live-c13key"] = func(a []string) {
-		keyOf := func(ph []byte) string { return strings.TrimLeft(fmt.Sprintf("%02x", ph[4]), "0") }
-		l := startLive(liveOpts{traceTo: a[0], keyFunc: func(m *service.Message) (string, bool) {
+		// (keys are what the application says they are: here the empty string, one or two digits, or - for phones whose fifth byte is
+		// 0x5x - a string with upper-case letters)
+		keyOf := func(ph []byte) string {
+			k := strings.TrimLeft(fmt.Sprintf("%02x", ph[4]), "0")
+			if ph[4]>>4 == 5 {
+				k = "Vehicle-" + strings.ToUpper(k)
+			}
+			return k
+		}
+		l := startLive(liveOpts{traceTo: a[0], handlers: func() map[consts.JT808CommandType]service.Handler {
+			// a large custom handler table (every message type wrapped)
+			m := map[consts.JT808CommandType]service.Handler{}
+			for id, mk := range modelHandlers() {
+				m[id] = &parseAll{mk()}
+			}
+			return m
+		}, keyFunc: func(m *service.Message) (string, bool) {
 			d := m.JTMessage.Header.TerminalPhoneNo
 			for len(d) < 12 {
 				d = "0" + d
@@ -859,11 +912,14 @@ func init() {
 			if d[10:12] == "98" && m.JTMessage.Header.ID != 0x0102 { // registered by its authentication only
 				return "", false
 			}
+			if d[8] == '5' {
+				return "Vehicle-" + strings.ToUpper(strings.TrimLeft(d[8:10], "0")), true
+			}
 			return strings.TrimLeft(d[8:10], "0"), true
 		}})
 		kid := 0
-		for round := 0; round < 4; round++ {
-			ph := []byte{0x01, 0x36, 0x00, 0x00, byte(round % 2 * 7), byte(round)}
+		for round := 0; round < 6; round++ {
+			ph := []byte{0x01, 0x36, 0x00, 0x00, []byte{0x00, 0x07, 0x5a, 0x00, 0x5a, 0x07}[round], byte(round)}
 			key := keyOf(ph)
 			t := l.dial(ph, 0)
 			t.send(t.frame(0x0002, nil))
@@ -887,8 +943,21 @@ func init() {
 			}
 			res := <-resCh
 			l.rec.log(t.idx, "D", "assert", "ok", joined && res.Kind == "resp", "what", "CommandToAnOnlineKeyNotAnswered", "key", key, "kind", res.Kind)
-			t.close(round >= 2)
-			time.Sleep(150 * time.Millisecond)
+			// three more commands are on their way when the terminal goes (the writer is still working them off)
+			var qw sync.WaitGroup
+			for i := 0; i < 3; i++ {
+				kid++
+				qw.Add(1)
+				go func(k int) {
+					defer qw.Done()
+					l.sendActive(t.idx, k, key, consts.P8104QueryTerminalParams, nil, 300*time.Millisecond)
+				}(kid)
+			}
+			time.Sleep(time.Duration(round) * 300 * time.Microsecond)
+			t.close(round >= 3)
+			qw.Wait()
+			l.waitLeft(t.idx, 5*time.Second) // (teardown is asynchronous: the key is free once the leave callback has run)
+			time.Sleep(50 * time.Millisecond)
 			var wg sync.WaitGroup
 			for i, tmo := range []time.Duration{-1, -1, 400 * time.Millisecond, -1, -1} {
 				kid++
@@ -913,7 +982,8 @@ func init() {
 				time.Sleep(time.Duration(i*60) * time.Microsecond)
 			}
 			t.close(true)
-			time.Sleep(150 * time.Millisecond)
+			l.waitLeft(t.idx, 400*time.Millisecond) // (if it joined at all)
+			time.Sleep(100 * time.Millisecond)
 			var wg sync.WaitGroup
 			for j := 0; j < 2; j++ {
 				kid++
@@ -1288,7 +1358,11 @@ func init() {
 				stalled := stalledFlag.Load()
 				report["stalled"] = stalled
 				report["fill"] = fill
-				// 3. commands without a time-out queue up behind the stuck writer; the fourth does not fit
+				// 3. a command with the default time-out (OverTimeDuration 0: 3 s) and commands without a time-out queue up behind the
+				// stuck writer; the queue holds three, the others do not fit
+				call("default-timeout-queued", t.idx, key, 0, nil)
+				defaultCalledAt := time.Since(t0)
+				time.Sleep(5 * time.Millisecond)
 				for i := 0; i < 4; i++ {
 					call("no-timeout-queued", t.idx, key, -1, nil)
 					time.Sleep(5 * time.Millisecond)
@@ -1316,7 +1390,9 @@ func init() {
 					}
 				}
 				// 5. wait until the three early time-outs have expired inside the stall, then end the connection
-				if d := 3000*time.Millisecond - time.Since(t0); d > 0 {
+				// (... and the default time-out of the queued command, 3 s + 1 s after its call: it comes back by its own deadline while
+				// the writer is still stuck)
+				if d := defaultCalledAt + 5200*time.Millisecond - time.Since(t0); d > 0 {
 					time.Sleep(d)
 				}
 				endedAt.Store(time.Since(t0).Milliseconds())
